@@ -6,7 +6,7 @@ use itertools::Itertools;
 
 use super::{FstDictionary, WordId};
 use super::{FuzzyMatchResult, dictionary::Dictionary};
-use crate::{CharString, WordMetadata};
+use crate::{CharString, CharStringExt, WordMetadata};
 
 /// A simple wrapper over [`Dictionary`] that allows
 /// one to merge multiple dictionaries without copying.
@@ -98,14 +98,25 @@ impl Dictionary for MergedDictionary {
 
         for child in &self.children {
             if let Some(found_item) = child.get_word_metadata(word) {
-                // The merged dictionary is the union of its children: a word that one child
-                // lists for a single dialect and another child (say, the user's dictionary)
-                // lists without restriction is valid everywhere.
-                if found_item.dialect.is_none() {
-                    return Some(found_item);
+                if restricted.is_none() {
+                    if found_item.dialect.is_none() {
+                        return Some(found_item);
+                    }
+
+                    restricted = Some(found_item);
+                    continue;
                 }
 
-                restricted.get_or_insert(found_item);
+                // The merged dictionary is the union of its children: a word that one child
+                // lists for a single dialect and another child (say, the user's dictionary)
+                // lists without restriction is valid everywhere. Metadata is looked up without
+                // regard to case, so make sure the other child lists this very spelling.
+                if found_item.dialect.is_none()
+                    && (child.contains_exact_word(word)
+                        || child.contains_exact_word(&word.to_lower()))
+                {
+                    return Some(found_item);
+                }
             }
         }
 
